@@ -17,7 +17,8 @@ ObsInit == [state |-> EmptyMap,     \* f -> last observed state
             fin_before |-> EmptyMap,\* thr -> TRUE if f was already seen FINISHED when this thread's cancel() began
             added |-> {},           \* <<f, k>> add_done_callback returned
             ran |-> EmptyMap,       \* <<f, k>> -> number of runs
-            waiting |-> {}]         \* <<f, k>> blocked waiters
+            waiting |-> {},         \* <<f, k>> blocked waiters
+            sawdone |-> {}]         \* futures for which some done() query answered True
 
 IsTerm(s) == s \in Terminal
 
@@ -31,6 +32,7 @@ ObsNext(st, e) ==
     [] e.ev = "Callback" -> [st EXCEPT !.ran = Put(@, <<e.f, e.k>>, Get(@, <<e.f, e.k>>, 0) + 1)]
     [] e.ev = "WaitCall" -> [st EXCEPT !.waiting = @ \cup {<<e.f, e.k>>}]
     [] e.ev = "WaitRet" -> [st EXCEPT !.waiting = @ \ {<<e.f, e.k>>}]
+    [] e.ev = "ProbeRet" /\ e.s = "done" /\ e.a = 1 -> [st EXCEPT !.sawdone = @ \cup {e.f}]
     [] OTHER -> st
 
 Clauses(st, e) ==
@@ -38,6 +40,11 @@ Clauses(st, e) ==
         (e.ev = "Observed" /\ Has(st.state, e.f) /\ IsTerm(st.state[e.f])) =>
             \/ (st.state[e.f] = "CANCELLED" /\ e.s = "CANCELLED_AND_NOTIFIED")
             \/ (st.state[e.f] = e.s /\ e.s = "FINISHED" /\ st.out[e.f] = <<e.a, e.b>>)>>,
+     <<"C02_QueriesNeverRaise",      \* running() / done() / cancelled() never raise (a = truth value of the answer);
+        \* done() does not go back to False, and a future that has answered done() is not running()
+        /\ e.ev = "ProbeRaise" => FALSE
+        /\ (e.ev = "ProbeRet" /\ e.s = "done" /\ e.f \in st.sawdone) => e.a = 1
+        /\ (e.ev = "ProbeRet" /\ e.s = "running" /\ e.f \in st.sawdone) => e.a = 0>>,
      <<"C02_CancelNeverRaises",
         e.ev = "CancelRaise" => FALSE>>,
      <<"C02_CancelTrueSticks",
